@@ -137,12 +137,16 @@ Fixpoint parse (fuel : nat) (out : list Z) : option (list (Z * Z * Z * Z) * Z) :
   | O => None
   | S fuel' =>
       match out with
-      | [-1; fin] => Some ([], fin)
-      | a :: b :: c :: d :: rest =>
-          match parse fuel' rest with
-          | Some (t, fin) => Some ((a, b, c, d) :: t, fin)
-          | None => None
-          end
+      | a :: b :: rest =>
+          if a =? -1 then match rest with [] => Some ([], b) | _ => None end   (* end marker, finished? *)
+          else match rest with
+               | c :: d :: rest' =>
+                   match parse fuel' rest' with
+                   | Some (t, fin) => Some ((a, b, c, d) :: t, fin)
+                   | None => None
+                   end
+               | _ => None
+               end
       | _ => None
       end
   end.
